@@ -168,6 +168,8 @@ def render(files, inc, base=None, late=None):
     if base is not None and not has_dotset:
         if late is None:
             link_at = ["start", "end", "start", "end", "omit"][h % 5] if base == 512 else ["start", "end"][h % 2]
+        elif late == "mid":
+            link_at = "mid"                        # between two top-level statements of the first file (ahead of its '.end')
         elif late:
             link_at = ["end", "omit"][h % 2] if base == 512 else "end"
     counter = {}
@@ -208,8 +210,16 @@ def render(files, inc, base=None, late=None):
         lines = []
         if i == 0 and base is not None and link_at == "start":
             lines.append("\t.link %o" % base)
-        for s in f:
+        mid = None
+        if i == 0 and link_at == "mid":
+            stop = next((q for q, s in enumerate(f) if s["k"] == "end"), len(f))
+            mid = (1 + h % stop) if stop else 0
+            if mid == 0:
+                lines.append("\t.link %o" % base)
+        for q, s in enumerate(f):
             lines += stmt(s, inc_names)
+            if mid is not None and q + 1 == mid:
+                lines.append("\t.link %o" % base)
         if i == len(files) - 1 and base is not None and link_at == "end":
             lines.append("\t.link %o" % base)
         srcs.append((f"f{i + 1}.mac", "\n".join(lines) + "\n"))
@@ -247,6 +257,8 @@ def replay(task):
             # an accepted program is assembled with the harness `.link` in front AND with it at the very end / omitted
             # (the base is then unknown during the whole pass): both must give the predicted result
             places = [False, True] if (run["ok"] and rec["own"] != "err" and opts.get("both_link_places", True)) else [None]
+            if len(places) == 2 and opts.get("mid_link"):
+                places.append("mid")
             for late in places:
                 variants.append((run, run["base"], late))
         else:
